@@ -89,6 +89,7 @@ def run(F, R):
     # F11: the device finds the ring slot of an entry with the queue size it was told: queue_set receives SIZE (and the
     # queue's own index and areas) - shared with C06.L3
     from .C06 import registration_rule
+    buffer_iter_rule(F, R, 'F13')
     registration_rule(F, R, 'F11')
     # F12: ... and at the addresses it was told: each transport's queue_set writes every area address, low and high word, into
     # that area's own registers (shared with C10.M2 / C11.W3)
@@ -108,6 +109,41 @@ def run(F, R):
     for _k, _v in _roles.items():
         if _v == 'pop_used':
             e6_relink(F, R, M, _k, rule='F7')
+
+
+@shared_rule
+def buffer_iter_rule(F, R, rule):
+    """One descriptor per buffer: the iterator that feeds the descriptor writers (Item carries the buffer direction) yields exactly one
+    item for every buffer of the two lists - its `next` is loop-free and returns Some on every path on which it took an element
+    off a list, None only when both lists are exhausted.  The writers size tables and count descriptors by the list lengths, so
+    an iterator that skips elements (empty buffers, say) leaves part of a published table unwritten."""
+    n = 0
+    for b in sorted(F.bodies.values(), key=lambda x: x['id']):
+        if b.get('impl_trait') != 'core::iter::Iterator' or b['name'] != 'next' or not F.handwritten(b) or not b['id'].startswith('<queue::'):
+            continue
+        n += 1
+        where = fn_site(F, b['id'])
+        if has_loop(b):
+            R.check(False, rule, '%s:one-item-per-buffer' % b['id'], where, 'loop-free next()',
+                    'the buffer iterator\'s next() loops (it can skip list elements): the number of descriptors written no longer equals the number of buffers counted')
+            continue
+        sg = supergraph(F, b['id'], tag='flat', max_depth=0)
+        bad = None
+        for p in PathEnum(sg).run():
+            if p.panicked:
+                continue
+            took = False
+            for c in p.conds:
+                d = c[0]
+                if d[0] == 'discr' and d[1][0] == 'call' and c[1][0] == 'in' and 0 not in c[1][1]:
+                    took = True
+            ev = err_variant(p.ret)
+            if took and ev != 'Some':
+                bad = 'a path takes an element off a list and returns %s' % ev
+            if not took and ev == 'Some':
+                bad = 'a path returns an item without taking an element'
+        R.check(bad is None, rule, '%s:one-item-per-buffer' % b['id'], where, 'Some exactly on the paths that take an element', 'buffer iterator: %s' % bad)
+    R.count('buffer_iters', n)
 
 
 def share_fn_rule(F, R, rule):
